@@ -12,6 +12,13 @@ Two ties:
                 function, parameter, local variable, local class) with classes declared under it, inside
                 functions, lambdas and module-level blocks: a class without parent inherits from the built-in
                 Object, `class A : Object` from what the variable denotes (repaired finding D26).
+                About every third program has class *factories*: a function or lambda `mk(B, q)` whose body declares
+                `class D : B {..}` (also `E : D` on top, or a parent-less `P` with `D : P` under it) and returns the
+                class; it is applied to several different classes (module classes, its own products, late in the run,
+                once to a non-class), so ONE class declaration — one set of `super` sites, one set of by-name accesses —
+                is evaluated repeatedly with different parents.  The products are instantiated and used like every
+                other class, interleaved: zero-argument (fused) and n-argument super calls, `super.m` as a value and
+                from a lambda, inherited fields read by fixed index in the base's methods and by name in D's.
 
 corpus/C03/*.json: engine `classes` (op list), `prog` (AST, judged by the Spec), `lay` (a program file next to the
 json with the status / stdout / last stderr line it must give — the witnesses of repaired findings); run first.
@@ -680,13 +687,150 @@ def gen_local_unit(rng, k, classes, meta):
     return [("fn", "mk%d" % k, params, body), ("let", r, call(var("mk%d" % k), *args))], [(r, lc)]
 
 
-def gen_program(rng, size=1.0, shadow=None):
+def common_view(bases, union=False):
+    """What a class declared inside a factory can rely on in its parent: a stand-in class that has the fields
+    and methods ALL the classes the factory is going to be applied to have (`union`: that ANY of them has — then
+    a `super.m` may fail for some parents, the uses are guarded), and an initialiser if they agree on its arity."""
+    v = GClass("?", None)
+    pick = any if union else all
+    names = []
+    for b in bases:
+        for f in b.fields():
+            if f not in names:
+                names.append(f)
+    v.own_fields = [f for f in names if all(f in b.fields() for b in bases)]      # fields: always the common ones
+    v.methods = [(m, ["a%d" % i for i in range(M_ARITY[m])], None) for m in sorted(M_ARITY)
+                 if pick(b.find_method(m) is not None for b in bases)]
+    ars = {(b.init_arity() if b.init_owner() else None) for b in bases}
+    if len(ars) == 1 and None not in ars:
+        v.init = (["p%d" % i for i in range(ars.pop())], [])
+    v.fragile_own = union or any(b.fragile() for b in bases)
+    return v
+
+
+def calls_super_init_first(c):
+    return bool(c.init and c.init[1] and c.init[1][0][0] == "expr" and c.init[1][0][1][0] == "call"
+                and c.init[1][0][1][1] == ("super", "init"))
+
+
+def product_of(tmpl, base, name):
+    """the class one evaluation of the declaration `tmpl` gives when its parent is `base`"""
+    p = GClass(name, base)
+    p.init, p.methods, p.statics, p.own_fields = tmpl.init, tmpl.methods, tmpl.statics, tmpl.own_fields
+    p.fragile_own = tmpl.fragile_own or (tmpl.init is not None and base is not None and base.init_owner() is not None
+                                         and not calls_super_init_first(tmpl))
+    p.template = tmpl
+    return p
+
+
+def mention_outer(rng, c, x):
+    """let some methods of the template class `c` read the variable `x` of the enclosing function (a number)"""
+    out = []
+    for (n, ps, b) in c.methods:
+        if b and b[-1][0] == "ret" and rng.random() < 0.5:
+            b = b[:-1] + [("ret", add(b[-1][1], var(x)))]
+        out.append((n, ps, b))
+    c.methods = out
+
+
+class Factory:
+    """`fn mk<k>(B, q) { [class P {..}] class D : B|P {..} [class E : D {..}] return D|E; }` (or the same as a lambda)"""
+
+    def __init__(self, k):
+        self.k = k
+        self.fname = "fac%d" % k
+        self.templates = []      # declaration order; templates[0].parent is the stand-in (or None for the inner root)
+        self.form = "single"
+        self.napplied = 0
+        self.nested_ok = True
+
+    def apply(self, base, name):
+        """the GClass of the class `mk(base, _)` returns (None if the form ignores B)"""
+        cur = base if self.form != "inner_root" else None
+        for t in self.templates[:-1]:
+            cur = product_of(t, cur, None)
+        return product_of(self.templates[-1], cur, name)
+
+
+def gen_factory(rng, k, classes, meta):
+    """Returns (factory, items, primary bases)."""
+    fac = Factory(k)
+    r = rng.random()
+    fac.form = "single" if r < 0.55 else ("chain" if r < 0.8 else "inner_root")
+    cands = list(classes)
+    # the parents it will see: 2-4 different classes, preferably with zero-argument methods of their own to override
+    best = None
+    for _ in range(4):
+        bases = rng.sample(cands, min(len(cands), rng.choice([2, 2, 3, 4])))
+        score = sum(1 for m in ("m0", "m1") if all(b.find_method(m) for b in bases))
+        if best is None or score > best[0]:
+            best = (score, bases)
+    bases = best[1]
+    union = rng.random() < 0.2
+    before = {key: meta[key] for key in ("super_fused", "super_args", "super_value", "super_lambda")}
+    meta["_boost"] = True
+    if fac.form == "inner_root":
+        root = GClass("P%d" % k, None)
+        gen_class_body(rng, root, classes, meta)
+        d = GClass("D%d" % k, root)
+        gen_class_body(rng, d, classes, meta)
+        fac.templates = [root, d]
+        meta["local_classes"] += 2
+    else:
+        view = common_view(bases, union)
+        d = GClass("D%d" % k, view)
+        d.parent_as = "B"
+        gen_class_body(rng, d, classes, meta)
+        d.fragile_own = d.fragile_own or union
+        fac.templates = [d]
+        meta["local_classes"] += 1
+        if fac.form == "chain":
+            e = GClass("E%d" % k, d)
+            gen_class_body(rng, e, classes, meta)
+            fac.templates.append(e)
+            meta["local_classes"] += 1
+    meta["_boost"] = False
+    for key, v in before.items():
+        meta["factory_" + key] += meta[key] - v
+    for t in fac.templates:
+        mention_outer(rng, t, "q")
+    top = fac.templates[-1]
+    # applying the factory to its own product: only if the product's initialiser has the arity the declaration expects
+    if fac.form != "inner_root":
+        want = view.init_arity() if view.init is not None else None
+        got = top.init_arity() if top.init_owner() not in (None, view) else want
+        fac.nested_ok = want is None or want == got
+    body = [class_item(t) for t in fac.templates] + [("ret", var(top.name))]
+    meta["factories"] += 1
+    meta["factory_form_" + fac.form] += 1
+    if rng.random() < 0.75:
+        items = [("fn", fac.fname, ["B", "q"], body)]
+    else:
+        items = [("let", fac.fname, ("lam", ["B", "q"], body))]
+        meta["factory_lambda"] += 1
+    return fac, items, bases
+
+
+def apply_factory(rng, fac, base, meta):
+    """`let K<k>_<n> = mk<k>(<base>, <number>);` — returns (item, the product's GClass)"""
+    name = "K%d_%d" % (fac.k, fac.napplied)
+    fac.napplied += 1
+    meta["factory_applications"] += 1
+    return ("let", name, call(var(fac.fname), var(base.name), num(rng.randint(1, 9) * 100))), fac.apply(base, name)
+
+
+def gen_program(rng, size=1.0, shadow=None, factory=None):
     """Returns (items, meta).  Items are the AST; meta has distribution counters."""
     meta = {"classes": 0, "max_depth": 0, "overrides": 0, "super_calls": 0, "super_init": 0, "shadow_fields": 0,
             "statics": 0, "bound_passed": 0, "shared_sites": 0, "try_blocks": 0, "explicit_object": 0,
             "fused_sites": 0, "unfused_sites": 0, "lambda_self": 0, "foreign_field_reads": 0,
             "object_module_class": 0, "object_module_value": 0, "object_local": 0, "local_classes": 0,
-            "implicit_parent_under_own_object": 0, "explicit_parent_own_object": 0, "superclass_not_a_class": 0}
+            "implicit_parent_under_own_object": 0, "explicit_parent_own_object": 0, "superclass_not_a_class": 0,
+            "super_fused": 0, "super_args": 0, "super_value": 0, "super_lambda": 0,
+            "factories": 0, "factory_applications": 0, "factory_nested": 0, "factory_late": 0, "factory_lambda": 0,
+            "factory_not_a_class": 0, "factory_form_single": 0, "factory_form_chain": 0, "factory_form_inner_root": 0,
+            "factory_super_fused": 0, "factory_super_args": 0, "factory_super_value": 0, "factory_super_lambda": 0,
+            "factory_distinct_parents_max": 0}
     ncls = rng.randint(2, 7)
     # the program's own `Object` (the implicit superclass stays the built-in one, an explicit `: Object` is the program's):
     # a module-level class of that name / a module variable or function of that name / locals of that name (below)
@@ -755,6 +899,42 @@ def gen_program(rng, size=1.0, shadow=None):
         its, lobjs = gen_local_unit(rng, k, classes, meta)
         items += its
         objs += lobjs
+    # class factories: one declaration evaluated several times, each time with another parent
+    facs = []
+    late = []                        # (factory, base) applied in the middle of the main statements
+    if factory if factory is not None else rng.random() < 0.35:
+        module_classes = list(classes)
+        for k in range(rng.choice([1, 1, 1, 2])):
+            fac, its, bases = gen_factory(rng, k, module_classes, meta)
+            items += its
+            facs.append(fac)
+            parents = list(bases)
+            if rng.random() < 0.3:
+                parents.append(rng.choice(bases))          # the same parent twice: two classes all the same
+            rng.shuffle(parents)
+            if len(parents) > 2 and rng.random() < 0.5:
+                late.append((fac, parents.pop()))
+            mine = []
+            for b in parents:
+                it, prod = apply_factory(rng, fac, b, meta)
+                items.append(it)
+                mine.append(prod)
+            if fac.nested_ok and fac.form != "inner_root" and rng.random() < 0.5:
+                # the factory applied to a class it made: the super sites of D run with D's own evaluations as parents
+                it, prod = apply_factory(rng, fac, rng.choice(mine), meta)
+                items.append(it)
+                mine.append(prod)
+                meta["factory_nested"] += 1
+                if rng.random() < 0.3:
+                    late.append((fac, prod))
+            if rng.random() < 0.15:
+                # applied to something that is not a class (the inner-root form does not look at B)
+                meta["factory_not_a_class"] += 1
+                items.append(("try", [("let", "z%d" % k, call(var(fac.fname), num(5), num(1))), ("print", ("str", "made"))], []))
+                meta["try_blocks"] += 1
+            classes = classes + mine
+            meta["factory_distinct_parents_max"] = max(meta["factory_distinct_parents_max"],
+                                                       len({id(p.parent) for p in mine}) + sum(1 for f, _ in late if f is fac))
     for c in classes:
         for rep in range(1 if rng.random() < 0.7 else 2):
             name = "o%d" % len(objs)
@@ -765,7 +945,17 @@ def gen_program(rng, size=1.0, shadow=None):
         if "peer" in c.fields() and rng.random() < 0.85:
             items.append(("setf", var(o), "peer", var(rng.choice(objs)[0]), False))
     nstm = int(rng.randint(14, 34) * size)
-    for _ in range(nstm):
+    for n in range(nstm):
+        if late and n == nstm // 2:
+            # more evaluations of the declarations after their sites have already run
+            for fac, b in late:
+                it, prod = apply_factory(rng, fac, b, meta)
+                name = "o%d" % len(objs)
+                args = [num(rng.randint(1, 9)) for _ in range(prod.init_arity())]
+                items += [it, ("let", name, call(var(prod.name), *args))]
+                classes = classes + [prod]
+                objs.append((name, prod))
+                meta["factory_late"] += 1
         items += gen_main_stmt(rng, classes, objs, meta)
     # every receiver class through one shared site, twice in different orders
     for m in rng.sample(sorted(M_ARITY), 2):
@@ -867,7 +1057,7 @@ def gen_class_body(rng, c, classes, meta):
             c.fragile_own = True
         c.init = (params, body)
     # --- methods
-    names = [m for m in sorted(M_ARITY) if rng.random() < 0.55][:5]
+    names = [m for m in sorted(M_ARITY) if rng.random() < (0.75 if meta.get("_boost") else 0.55)][:5]
     rng.shuffle(names)
     allf = c.fields()
     numf = [f for f in allf if f in NUMF]
@@ -892,19 +1082,23 @@ def gen_class_body(rng, c, classes, meta):
             terms.append(var("t"))
             meta["fused_sites" if not args else "unfused_sites"] += 1
         # super call from an overriding (or not) method
-        if c.parent and rng.random() < 0.65:
+        if c.parent and rng.random() < (0.9 if meta.get("_boost") else 0.65):
             target = m if (c.parent.find_method(m) and rng.random() < 0.8) else rng.choice([x for x in sorted(M_ARITY) if x >= m])
             if c.parent.find_method(target):
                 args = [rng.choice([var(p) for p in params] + [num(rng.randint(1, 9))]) for _ in range(M_ARITY[target])]
                 shape = rng.random()
                 if shape < 0.6:
+                    # `super.m()` without arguments is fused into SuperInvoke, with arguments it is GetSuper + Call
                     body.append(("let", "s", call(("super", target), *args)))
+                    meta["super_args" if args else "super_fused"] += 1
                 elif shape < 0.8:
                     body.append(("let", "g", ("super", target)))
                     body.append(("let", "s", call(var("g"), *args)))
+                    meta["super_value"] += 1
                 else:
                     body.append(("let", "h", ("lam", [], [("ret", call(("super", target), *args))])))
                     body.append(("let", "s", call(var("h"))))
+                    meta["super_lambda"] += 1
                 terms.append(var("s"))
                 meta["super_calls"] += 1
         if "peer" in allf and rng.random() < 0.6:
@@ -1330,11 +1524,14 @@ def shrink_prog(items, extra="", fails=None):
             i -= 1
         # inside module-level blocks and function bodies: drop statements, thin out the classes declared there
         for i, it in enumerate(list(cur)):
-            if it[0] in ("try", "fn"):
+            is_lam = it[0] == "let" and it[2][0] == "lam"        # `let fac = |B, q| { class D : B {..} return D; };`
+            if it[0] in ("try", "fn") or is_lam:
                 bi = 1 if it[0] == "try" else 3
-                body = list(it[bi])
+                body = list(it[2][2]) if is_lam else list(it[bi])
 
-                def rebuilt(b, it=it, bi=bi, i=i):
+                def rebuilt(b, it=it, bi=bi, i=i, is_lam=is_lam):
+                    if is_lam:
+                        return cur[:i] + [("let", it[1], ("lam", it[2][1], b))] + cur[i + 1:]
                     return cur[:i] + [it[:bi] + (b,) + it[bi + 1:]] + cur[i + 1:]
                 j = len(body) - 1
                 while j >= 0:
@@ -1364,6 +1561,14 @@ def shrink_prog(items, extra="", fails=None):
                                 init, changed = cst[3], True
                                 body = body[:j] + [cst] + body[j + 1:]
                                 cur = rebuilt(body)
+                        for mi, (mn, mp, mb) in enumerate(list(methods)):
+                            for k in range(len(mb) - 2, -1, -1):
+                                nb = mb[:k] + mb[k + 1:]
+                                cst = ("class", name, parent, init, methods[:mi] + [(mn, mp, nb)] + methods[mi + 1:], statics)
+                                if fails(rebuilt(body[:j] + [cst] + body[j + 1:])):
+                                    methods, mb, changed = cst[4], nb, True
+                                    body = body[:j] + [cst] + body[j + 1:]
+                                    cur = rebuilt(body)
         # inside classes: drop methods/statics/init statements
         for i, it in enumerate(list(cur)):
             if it[0] == "class":
@@ -1522,7 +1727,23 @@ def shrink_items(items, fails):
     return cur
 
 
-def stream_prog(ctx, nprog, label="prog", seed_mul=1000003, report=True, extra_cycle=("",)):
+def search_prog(ctx, total, chunk=2500):
+    """Spec-judged search for a concrete failing program after a broken proof obligation or a tie failure: fresh
+    programs (every second chunk: all with class factories) in chunks, stopping at the first failure."""
+    done, k = 0, 0
+    while done < total:
+        n = min(chunk, total - done)
+        found = stream_prog(ctx, n, label="search_prog_%d" % k, seed_mul=7349 + 2 * k, report=False,
+                            factory=True if k % 2 == 0 else None)
+        if found:
+            found["found_by"] = "search"
+            return found
+        done += n
+        k += 1
+    return None
+
+
+def stream_prog(ctx, nprog, label="prog", seed_mul=1000003, report=True, extra_cycle=("",), factory=None):
     rng = random.Random(ctx.seed * seed_mul + 17)
     progs, metas = [], []
     corpus = corpus_dir()
@@ -1533,7 +1754,7 @@ def stream_prog(ctx, nprog, label="prog", seed_mul=1000003, report=True, extra_c
                 progs.append(from_jsonable(r["ast"]))
                 metas.append({})
     for _ in range(nprog):
-        p, m = gen_program(rng)
+        p, m = gen_program(rng, factory=factory)
         progs.append(p)
         metas.append(m)
     specs = spec_run(progs)
@@ -1581,8 +1802,14 @@ def stream_prog(ctx, nprog, label="prog", seed_mul=1000003, report=True, extra_c
     for k in ("classes", "overrides", "super_calls", "super_init", "shadow_fields", "statics", "bound_passed", "shared_sites",
               "try_blocks", "explicit_object", "fused_sites", "unfused_sites", "lambda_self", "foreign_field_reads",
               "object_module_class", "object_module_value", "object_local", "local_classes",
-              "implicit_parent_under_own_object", "explicit_parent_own_object", "superclass_not_a_class"):
+              "implicit_parent_under_own_object", "explicit_parent_own_object", "superclass_not_a_class",
+              "super_fused", "super_args", "super_value", "super_lambda",
+              "factories", "factory_applications", "factory_nested", "factory_late", "factory_lambda", "factory_not_a_class",
+              "factory_form_single", "factory_form_chain", "factory_form_inner_root",
+              "factory_super_fused", "factory_super_args", "factory_super_value", "factory_super_lambda"):
         stats[k] = sum(m.get(k, 0) for m in metas)
+    stats["factory_programs"] = sum(1 for m in metas if m.get("factories"))
+    stats["factory_distinct_parents_max"] = max([m.get("factory_distinct_parents_max", 0) for m in metas] + [0])
     stats["depth_histogram"] = {}
     for m in metas:
         if m:
@@ -1622,9 +1849,8 @@ def stream_prog(ctx, nprog, label="prog", seed_mul=1000003, report=True, extra_c
             i, d = bad
             ctx.cov["model_vs_impl_disagreements"] += 1
             small = shrink_prog(progs[i], fails=compile_disagree)
-            found = stream_prog(ctx, 4 * nprog, label="search_prog", seed_mul=7349, report=False)
+            found = search_prog(ctx, 4 * nprog)
             if found:
-                found["found_by"] = "search"
                 return found
             with tempfile.TemporaryDirectory(prefix="c03_") as tmp2:
                 path = os.path.join(tmp2, "p.lay")
@@ -1725,6 +1951,8 @@ def run(ctx):
     ctx.cov["rule"] = ("(A) class hierarchies built through the Class/Instance API: 1-9 classes, depth <= 6, 0-5 fields and 0-5 methods per "
                        "class with overlapping names, queries interleaved; (B) generated class programs: 2-7 classes, depth <= 6, <= 5 fields / "
                        "<= 5 methods per class, super.init chains, every call-site shape, every object through shared call sites; "
+                       "about every third program with 1-2 class factories (one declaration evaluated 2-6 times with different parents: "
+                       "module classes, its own products, late in the run), the products used like every other class; "
                        "non-trivial = depth >= 2 and at least one overriding method; distinct by hash of the op list / S-expression")
     napi = ctx.n(5000, 150000)
     nprog = ctx.n(5000, 120000)
@@ -1732,7 +1960,7 @@ def run(ctx):
         what, detail = ctx.broken
         found = None
         if os.path.exists(DRV):
-            found = search_api(ctx, 10 * napi) or stream_prog(ctx, 4 * nprog, label="search_prog", seed_mul=7349, report=False)
+            found = search_api(ctx, 10 * napi) or search_prog(ctx, 4 * nprog)
         if found:
             found["broken_obligation"] = what
             found.setdefault("found_by", "search")
@@ -1758,7 +1986,10 @@ def run(ctx):
         "Model/Classes.lean is hand-written from class.rs / instance/mod.rs / compiler/mod.rs / vm/ops.rs; its class and instance part is "
         "tied to the implementation by the classes stream, its call paths (§6) only through the theorems relating them to the Spec "
         "functions that the program stream checks against the implementation",
-        "inline caches are modelled as off (cache transparency is C13); the program stream runs with caches on",
+        "inline caches are modelled as off (cache transparency is C13), except the one slot that decides which class a call "
+        "dispatches on independently of the receiver: the slot of a fused `super.m()` (Classes.lean §7, tied to ops.rs/cache.rs "
+        "by Gen/SuperSites.lean; `StoresGrow`: the method table of a class is complete when its declaration ends); the program "
+        "stream runs with caches on",
         "the built-in `Object` has no fields (hypothesis `hnof` of C03_fixed_index_valid / _any_scope; it is `Class::bare` plus native methods)",
         "generated programs declare `Object` in every way but do not *assign* the undeclared name (`Object = X;` overwrites the "
         "module's copy of the global symbol, which a class without parent reads where nothing shadows the name: known finding "
